@@ -33,6 +33,26 @@ def lt(text):
     return tuple((t[0], t[1]) for t in _TOK.tokenize(text) if t[0] not in ('S', 'EOF'))
 
 
+def seqtoks(rule):
+    """the items of an unknown at-rule as the parser stored them (type, value), white space and comments left out,
+    nested unknown rules flattened — NOT read through the serializer, so that two items which the serializer writes
+    as one token (`~` `=` -> `~=`) show at reparse level"""
+    out = [('ATKEYWORD', rule.atkeyword)]
+    for item in rule.seq:
+        v = item.value
+        if item.type in ('S', 'COMMENT') or isinstance(v, css.CSSComment):
+            continue
+        if isinstance(v, css.CSSUnknownRule):
+            out.extend(seqtoks(v))
+        else:
+            out.append((str(item.type), v if isinstance(v, str) else repr(v)))
+    return tuple(out)
+
+
+def unknown_leaf(rule):
+    return (lt(rule.cssText), seqtoks(rule))
+
+
 # ---------------------------------------------------------------------------------------------------------
 def decls(style):
     out = []
@@ -45,7 +65,7 @@ def decls(style):
                 out.append(('prop', v.name, lt(v.propertyValue.cssText), v.priority, bool(v.valid), v.literalname,
                             v.literalpriority))
         elif isinstance(v, css.CSSUnknownRule):
-            out.append(('unknown', lt(v.cssText), v.wellformed))
+            out.append(('unknown', unknown_leaf(v), v.wellformed))
         else:
             out.append(('other', v))
     return out
@@ -78,7 +98,7 @@ def canon_rule(r):
             return None
         return ('style', lt(r.selectorText), decls(r.style))
     if isinstance(r, css.CSSUnknownRule):
-        return ('unknown', lt(r.cssText), r.wellformed) if r.wellformed else None
+        return ('unknown', unknown_leaf(r), r.wellformed) if r.wellformed else None
     if isinstance(r, css.CSSVariablesRule):
         if not r.wellformed:
             return None
